@@ -47,3 +47,123 @@ def classify(pid, v):
         if p and p in PREDICATES and PREDICATES[p](v):
             return f["id"], f["what"]
     return None
+
+
+# ------------------------------------------------------------------ trigger predicates
+
+def _fn_nodes(items):
+    for it in items:
+        if isinstance(it, dict) and it.get("perr"):
+            continue
+        for n in walk(it):
+            if n.get("t") == "fn":
+                yield n
+
+
+def _assigned_names(body, stop_at_fn=True):
+    out = set()
+
+    def go(n):
+        if isinstance(n, dict):
+            if n.get("t") == "fn" and stop_at_fn and n is not body:
+                return
+            if n.get("t") == "assign":
+                out.add(n["tgt"]["n"])
+            if n.get("t") == "for":
+                for v in n["vars"]:
+                    out.add(v["n"])
+            for v in n.values():
+                go(v)
+        elif isinstance(n, list):
+            for v in n:
+                go(v)
+    go(body)
+    return out
+
+
+def _direct_inner_fns(body):
+    out = []
+
+    def go(n):
+        if isinstance(n, dict):
+            if n.get("t") == "fn":
+                out.append(n)
+                return
+            for v in n.values():
+                go(v)
+        elif isinstance(n, list):
+            for v in n:
+                go(v)
+    go(body)
+    return out
+
+
+def _names_read(n):
+    return {x["n"] for x in walk(n) if x.get("t") == "name"}
+
+
+def _captures(F):
+    """(inner fn, captured names) for function literals directly inside F that read F's own variables"""
+    own = set(F["params"]) | _assigned_names(F["body"])
+    res = []
+    for g in _direct_inner_fns(F["body"]):
+        gown = set(g["params"])
+        cap = (_names_read(g["body"]) - gown) & own
+        if cap:
+            res.append((g, cap))
+    return res
+
+
+def _wrong_result(v):
+    d = v.info or {}
+    return d.get("aspect") in ("value", "output", "class") or (d.get("aspect") == "kind" and d.get("recorded", {}).get("kind") in ("err", "val"))
+
+
+@predicate("closure-after-growth")
+def closure_after_growth(v):
+    """D11: a variable captured by an inner function literal is assigned in the defining function, and the
+    operand stack of the real machine has been reallocated (grown beyond its initial 128 slots) in this session"""
+    if not _wrong_result(v):
+        return False
+    grown = any((o.get("residue") or {}).get("stacklen", 0) > 128 for o in (v.real or []))
+    if not grown:
+        return False
+    for F in _fn_nodes(v.session["items"]):
+        for g, cap in _captures(F):
+            if cap & _assigned_names(F["body"]):
+                return True
+    return False
+
+
+def _list_contains_fn(n, fnnames):
+    for x in walk(n):
+        if x.get("t") == "list":
+            for y in walk(x):
+                if y.get("t") == "fn" or (y.get("t") == "name" and y["n"] in fnnames):
+                    return True
+    return False
+
+
+@predicate("closure-in-array-escape")
+def closure_in_array_escape(v):
+    """D12: a function builds an array that contains a function value capturing one of its variables
+    (so the closure can leave its definer inside an array)"""
+    if not _wrong_result(v):
+        return False
+    for F in _fn_nodes(v.session["items"]):
+        caps = _captures(F)
+        if not caps:
+            continue
+        fnnames = set()
+        for x in walk(F["body"]):
+            if x.get("t") == "assign" and x["e"].get("t") == "fn":
+                fnnames.add(x["tgt"]["n"])
+        # a list inside F (outside the inner literals' own bodies is not required) that holds a capturing literal or a name bound to one
+        for x in walk(F["body"]):
+            if x.get("t") == "list":
+                for yv in walk(x):
+                    if yv.get("t") == "fn" and any(yv is g for g, _ in caps):
+                        return True
+                    if yv.get("t") == "name" and yv["n"] in fnnames:
+                        return True
+    return False
